@@ -97,7 +97,7 @@ struct Counters
 	uint64_t eventsEnqueued = 0, dispatched = 0, taken = 0, cleared = 0, discardedByFault = 0, peeks = 0, endPhaseDispatched = 0;
 	uint64_t fifoChecked = 0, listenerFaultsFired = 0, slotRecycled = 0;
 	uint64_t waitsReturned = 0, waitForTrue = 0, waitForFalse = 0, terminalWithBlockedWaiter = 0, terminalBlockedLegit = 0, terminalInconclusive = 0, earlyReturnChecks = 0,
-		dqnScopes = 0, dqnDestroyedWithPending = 0, overlapRuns = 0;
+		dqnScopes = 0, dqnDestroyedWithPending = 0, dqnRetargeted = 0, dqnAssignedSameQueue = 0, overlapRuns = 0;
 	uint64_t observations = 0, observedEmptyTrue = 0, observedEmptyDuringDispatch = 0, oracleEventsChecked = 0;
 	uint64_t perObj[4] = { 0, 0, 0, 0 };
 } counters;
@@ -159,6 +159,11 @@ struct EQAdapterT
 	void * makeDqn() { return new DQN(q); }
 	void * copyDqn(void * p) { return new DQN(*(DQN *)p); }   // a copy is one more DisableQueueNotify object alive
 	void freeDqn(void * p) { delete (DQN *)p; }
+	// a second queue, only ever the target of DisableQueueNotify objects: assigning such an object onto one that guards the queue
+	// under test releases the queue under test (and must wake its waiters like a destructor does)
+	std::shared_ptr<Q> other;
+	void * makeDqnOther() { if(!other) other = std::make_shared<Q>(); return new DQN(other.get()); }
+	void assignDqn(void * dst, void * src) { *(DQN *)dst = *(const DQN *)src; }
 };
 
 typedef EQAdapterT<QPol, OBJ_EVENTQUEUE> EQAdapter;
@@ -193,6 +198,8 @@ struct HQAdapter
 	void * makeDqn() { return nullptr; }
 	void * copyDqn(void *) { return nullptr; }
 	void freeDqn(void *) {}
+	void * makeDqnOther() { return nullptr; }
+	void assignDqn(void *, void *) {}
 };
 
 // ------------------------------------------------------------------------------------------- harness
@@ -429,7 +436,9 @@ struct Harness : ListenerSink, EvHooks
 			EvRec & r = ev[id];
 			r.key = ((op.d % nKeys) + nKeys) % nKeys; r.producer = task; r.asInt = (A::kind == OBJ_HETER) && op.c == 1;
 			// b: 0 none, 1 / 2 nested DisableQueueNotify scopes around the enqueue, 3: one scope and a copy-constructed copy of it
-			const int depth = op.b == 3 ? 2 : std::max(0, std::min(2, op.b));
+			//    4: one scope; after the enqueue a DisableQueueNotify of ANOTHER queue is assigned onto it (the assignment releases this queue);
+			//    5: two scopes; after the enqueue the second is assigned onto the first (same queue: nothing is released)
+			const int depth = op.b == 3 || op.b == 5 ? 2 : op.b == 4 ? 1 : std::max(0, std::min(2, op.b));
 			for(int i = 0; i < depth; ++i) openDqn(task, op.b == 3 && i == 1);
 			{
 				Ev payload(id);
@@ -438,7 +447,22 @@ struct Harness : ListenerSink, EvHooks
 				r.enqRet = stamp.next(); r.enqReturned = true;
 				++counters.eventsEnqueued;
 			}
-			for(int i = 0; i < depth; ++i) closeDqn(task);
+			if(op.b == 4 && !dqnStack[task].empty()) {
+				if(void * foreign = ad.makeDqnOther()) {
+					void * mine = dqnStack[task].back(); dqnStack[task].pop_back();
+					const size_t idx = dqnIndex[task].back(); dqnIndex[task].pop_back();
+					++counters.dqnRetargeted;
+					dqns[idx].dtorInv = stamp.next();   // the assignment releases this queue, as a destructor would
+					--liveDqn;
+					ad.assignDqn(mine, foreign);
+					ad.freeDqn(foreign); ad.freeDqn(mine);   // both guard the other queue now
+				}
+			}
+			else if(op.b == 5 && dqnStack[task].size() >= 2) {
+				++counters.dqnAssignedSameQueue;
+				ad.assignDqn(dqnStack[task][dqnStack[task].size() - 2], dqnStack[task].back());
+			}
+			for(int i = 0; i < depth && !dqnStack[task].empty(); ++i) closeDqn(task);
 			break;
 		}
 		case O_PROCESS: case O_PROCESS_ONE: case O_PROCESS_IF: case O_PROCESS_UNTIL:
@@ -861,7 +885,7 @@ void generate(uint64_t seed, Plan & plan)
 			for(int i = 0; i < n; ++i) {
 				const uint32_t r = rng.below(100);
 				if(!heter && r < 22 && open < 2) { l.push_back(Op(O_DQN_OPEN)); ++open; }
-				l.push_back(Op(O_ENQ, nextId++, (!heter && rng.chance(1, 3)) ? 1 + (int)rng.below(3) : 0, (int)rng.below(2), (int)rng.below(2)));
+				l.push_back(Op(O_ENQ, nextId++, (!heter && rng.chance(1, 3)) ? 1 + (int)rng.below(5) : 0, (int)rng.below(2), (int)rng.below(2)));
 				if(open > 0 && rng.chance(1, 2)) { l.push_back(Op(O_DQN_CLOSE)); --open; }
 			}
 			while(open-- > 0) l.push_back(Op(O_DQN_CLOSE));
@@ -945,7 +969,7 @@ void statsJson(std::string & out)
 	  << ",\"dispatched_in_end_phase\":" << counters.endPhaseDispatched << ",\"fifo_histories_checked\":" << counters.fifoChecked
 	  << ",\"waits_returned\":" << counters.waitsReturned << ",\"waitfor_true\":" << counters.waitForTrue << ",\"waitfor_false\":" << counters.waitForFalse
 	  << ",\"terminal_states_with_blocked_waiter\":" << counters.terminalWithBlockedWaiter << ",\"terminal_blocked_legitimately\":" << counters.terminalBlockedLegit << ",\"terminal_inconclusive_polling_waiter_gave_up\":" << counters.terminalInconclusive
-	  << ",\"early_return_checks\":" << counters.earlyReturnChecks << ",\"dqn_scopes\":" << counters.dqnScopes
+	  << ",\"early_return_checks\":" << counters.earlyReturnChecks << ",\"dqn_scopes\":" << counters.dqnScopes << ",\"dqn_assigned_from_another_queue\":" << counters.dqnRetargeted << ",\"dqn_assigned_same_queue\":" << counters.dqnAssignedSameQueue
 	  << ",\"last_dqn_destroyed_with_event_pending\":" << counters.dqnDestroyedWithPending
 	  << ",\"preempted_between_predicate_and_block\":" << probes().cvPreBlockPreempted << ",\"notify_chose_among_several_waiters\":" << probes().notifyChoseAmongSeveral
 	  << ",\"observations\":" << counters.observations << ",\"observed_empty\":" << counters.observedEmptyTrue << ",\"oracle_events_checked\":" << counters.oracleEventsChecked
